@@ -179,8 +179,8 @@ def plan_c01(c):
 def plan_c02(c):
     n = 0
     for prof in ("release", "debug"):
-        n += gen_replay(c, "lens", "Trace_Wire", "Trace_Wire_C02.cfg", "C02 lengths, %s build" % prof, profile=prof) \
-            if prof == "release" else 0
+        if prof == "release" or c.tier == "thorough":
+            n += gen_replay(c, "lens", "Trace_Wire", "Trace_Wire_C02.cfg", "C02 lengths, %s build" % prof, profile=prof)
         m, _ = tv(c, "lens", "Trace_Wire", "Trace_Wire_C02.cfg", "C02 lengths (%s build)" % prof, profile=prof)
         c.traces += m
         n += m
